@@ -3,7 +3,7 @@
 Domain : per language (7): all strings up to length 4 (thorough 5) over a 19-symbol alphabet (letters, digit, newline,
          blank, tab, brackets, quotes, '#', '/', '*', backslash, '=', '>', ':', a non-ASCII letter), exhaustively; all
          strings up to length 3 (thorough 4) over exotic separators (CR, FF, VT, FS, NEL, LS, PS) mixed with newline,
-         quote and comment leaders; Hypothesis texts; vendored corpus files, random slices of them, with / without
+         quote and comment leaders; Hypothesis texts (token soups, arbitrary Unicode, generated canonical programs also with CRLF); vendored corpus files, random slices of them, with / without
          trailing newline, CRLF.
 Oracle : Pygments' own (offset, type, text) stream + the harness's offset -> (line, column): lex(.., False) returns
          exactly the tokens that are non-empty and not blank Text/Whitespace, lex(.., True) additionally drops Comment
@@ -180,7 +180,15 @@ def gen_texts(col, seed, n, lang):
 
     @st.composite
     def texts(draw):
-        kind = draw(st.sampled_from(["soup", "soup", "slice", "unicode"]))
+        kind = draw(st.sampled_from(["soup", "soup", "slice", "unicode", "canonical"]))
+        if kind == "canonical":
+            from vf.gen import programs as P
+
+            full = {v: k for k, v in P.LEXER.items()}[lang]
+            text = P.render(P.gen_program(draw(st.randoms(use_true_random=False)), full, draw(st.sampled_from([8, 20])))).text
+            if draw(st.booleans()):
+                text = text.replace("\n", "\r\n")
+            return text, "canonical"
         if kind == "soup" or not corp:
             return "".join(draw(st.lists(alpha, max_size=40))), "soup"
         if kind == "unicode":
